@@ -123,6 +123,10 @@ def run(pm, ctx):
     run_decisions(pm, ctx, 'C17-RD', OWN['C17'])
     from .. import exprdrift
     exprdrift.run(pm, ctx, 'C17-RE', OWN['C17'])
+    from ..conddrift import run_calls
+    run_calls(pm, ctx, 'C17-RC', OWN['C17'])
+    from .. import memo
+    memo.run(pm, ctx, 'C17-MK', OWN['C17'])
 
 
 def _signature_ok(fn, nargs, kwargs):
